@@ -911,9 +911,13 @@ func (st *state) execBuf(f []string) string {
 	case "reset":
 		if len(f) == 1 {
 			st.forget()
+			grown := cap(b.Bytes()) + 0
 			b.Reset()
 			st.pending, st.clean, st.trunc = nil, true, nil
-			return "ok len=0"
+			if n := b.Len(); n != 0 || len(b.Bytes()) != 0 {
+				st.hit("Reset:buffer-not-empty", fmt.Sprintf("after Reset() of a buffer whose storage had grown to >= %d bytes, Len() is %d", grown, n))
+			}
+			return fmt.Sprintf("ok len=%d", b.Len())
 		}
 	case "tostream":
 		// the unread bytes become the content of an io.Reader (chunked as asked) behind a new ReaderX
@@ -1072,6 +1076,32 @@ func (st *state) execStream(f []string) string {
 	}
 	if len(f) == 1 && f[0] == "recheck" {
 		return st.recheck()
+	}
+	if f[0] == "feed" {
+		// more bytes arrive on the source, behind what it still holds (a source that had reported EOF delivers again);
+		// the shadow BufferX is written the same bytes
+		if len(f) != 2 {
+			return "bad-op"
+		}
+		chunks, ok := parseChunks(f[1])
+		if !ok {
+			return "bad-op"
+		}
+		st.checkKept()
+		var kept []keptVal
+		for _, k := range st.kept { // BufferX.ZReadN results are valid until the buffer is written to
+			if !k.shadow {
+				kept = append(kept, k)
+			}
+		}
+		st.kept = kept
+		st.clean = false // the source now also carries bytes that no typed write of this script produced
+		for _, c := range chunks {
+			c = append([]byte{}, c...)
+			st.cr.chunks = append(st.cr.chunks, c)
+			st.shadow.Write(c)
+		}
+		return fmt.Sprintf("ok left=%d", len(st.cr.left()))
 	}
 	r, ok := parseRead(f)
 	if !ok || r.varint {
